@@ -68,7 +68,79 @@ Between(x, lo, hi, neg) ==
 (*   [op |-> "coalesce", args |-> <<e,...>>]                                *)
 (*   [op |-> "nullif", l |-> e, r |-> e]                                    *)
 (***************************************************************************)
-RECURSIVE Eval(_, _), EvalCase(_, _, _), EvalCoalesce(_, _)
+(***************************************************************************)
+(* Additional nodes (added for C33/C04; existing nodes are unchanged):      *)
+(*   [op |-> "like", f |-> "like"|"ilike"|"similar"|"isimilar",             *)
+(*          e |-> e, pat |-> e, neg |-> BOOLEAN]                            *)
+(*        `pat` evaluates to a pattern value [k |-> "p", v |-> index into   *)
+(*        PatPool] or NULL; strings are PoolChars[index]                    *)
+(*   [op |-> "casex", e |-> e, whens |-> <<<<value, then>>,...>>, else |-> e]*)
+(*        simple CASE: first WHEN whose value = operand is TRUE             *)
+(*   [op |-> "cast", to |-> kind, try |-> BOOLEAN, e |-> e]                 *)
+(*        kind in "i8","i16","i32","i","b" (integer widths / boolean);      *)
+(*        out of range: ERR (CAST) or NULL (TRY_CAST)                       *)
+(*   [op |-> "tbin", t |-> kind, f |-> "+"|"-"|"*"|"/"|"%", l |-> e, r |-> e]*)
+(*   [op |-> "tun", t |-> kind, f |-> "neg"|"abs", e |-> e]                 *)
+(*        checked integer arithmetic in width t: a result outside the       *)
+(*        width is ERR (so is MIN % -1, whose quotient overflows)           *)
+(* Typed literals are [op |-> "lit", v |-> value, t |-> kind].              *)
+(***************************************************************************)
+\* characters: 1 = a, 2 = b; pattern tokens: 1 a, 2 b, 3 %, 4 _, 5 A, 6 B, 7 \ (escape), 8 | (SIMILAR TO only)
+PoolChars == << <<1>>, <<1, 2>>, <<2>> >>
+PatPool == << <<3>>, <<4>>, <<1, 3>>, <<3, 2>>, <<1, 4>>, <<4, 2>>, <<>>, <<1, 2>>, <<3, 1, 3>>, <<4, 4>>,
+              <<1, 3, 2>>, <<5, 3>>, <<3, 6>>, <<1>>, <<4, 3>>, <<3, 4>>, <<5, 6>>, <<2, 3>>,
+              <<1, 7, 3>>, <<7, 1, 3>>, <<7, 4>>, <<3, 3>>, <<4, 4, 4>>,
+              <<1, 8, 2>>, <<1, 2, 8, 3, 2>>, <<5, 8, 4, 2>> >>
+NPatLike == 23      \* patterns 1..NPatLike are LIKE/ILIKE/SIMILAR patterns without | ; 1..18 have no escape
+PatV(i) == [k |-> "p", v |-> i]
+LowerTok(t) == IF t = 5 THEN 1 ELSE IF t = 6 THEN 2 ELSE t
+CharEq(c, t, ci) == t \in {1, 2, 5, 6} /\ (c = t \/ (ci /\ c = LowerTok(t)))
+RECURSIVE LikeMatch(_, _, _)
+LikeMatch(s, p, ci) ==
+  IF p = <<>> THEN s = <<>>
+  ELSE IF Head(p) = 3 THEN LikeMatch(s, Tail(p), ci) \/ (s # <<>> /\ LikeMatch(Tail(s), p, ci))
+  ELSE IF Head(p) = 4 THEN s # <<>> /\ LikeMatch(Tail(s), Tail(p), ci)
+  ELSE IF Head(p) = 7 THEN \* escape: the next token is a literal character (% and _ never occur in the pool strings)
+       Len(p) >= 2 /\ s # <<>> /\ CharEq(Head(s), p[2], ci) /\ LikeMatch(Tail(s), Tail(Tail(p)), ci)
+  ELSE s # <<>> /\ CharEq(Head(s), Head(p), ci) /\ LikeMatch(Tail(s), Tail(p), ci)
+\* SIMILAR TO: top-level alternation, each alternative anchored at both ends
+RECURSIVE SplitAlt(_, _)
+SplitAlt(p, acc) ==
+  IF p = <<>> THEN <<acc>>
+  ELSE IF Head(p) = 8 THEN <<acc>> \o SplitAlt(Tail(p), <<>>)
+  ELSE SplitAlt(Tail(p), Append(acc, Head(p)))
+SimilarMatch(s, p, ci) == LET alts == SplitAlt(p, <<>>) IN \E i \in 1..Len(alts) : LikeMatch(s, alts[i], ci)
+LikeVal(f, x, p, neg) ==
+  IF IsErr(x) \/ IsErr(p) THEN Err
+  ELSE IF IsNull(x) \/ IsNull(p) THEN Null
+  ELSE LET ci == f \in {"ilike", "isimilar"}
+           m == IF f \in {"similar", "isimilar"} THEN SimilarMatch(PoolChars[x.v], PatPool[p.v], ci)
+                ELSE LikeMatch(PoolChars[x.v], PatPool[p.v], ci) IN
+       B(m # neg)
+
+KindLo(k) == CASE k = "i8" -> 0 - 128 [] k = "i16" -> 0 - 32768 [] OTHER -> 0 - 2147483647
+KindHi(k) == CASE k = "i8" -> 127 [] k = "i16" -> 32767 [] OTHER -> 2147483647
+\* "i32" and "i" (Int64) values are kept far inside TLC's 32-bit integers by the generators
+InKind(k, n) == k \in {"i", "i32"} \/ (n >= KindLo(k) /\ n <= KindHi(k))
+CastV(to, try, x) ==
+  IF IsErr(x) THEN Err
+  ELSE IF IsNull(x) THEN Null
+  ELSE IF to = "b" THEN (IF x.k = "b" THEN x ELSE IF x.k = "i" THEN B(x.v # 0) ELSE IF try THEN Null ELSE Err)
+  ELSE \* integer target
+    IF x.k = "b" THEN I(x.v)
+    ELSE IF x.k = "i" THEN (IF InKind(to, x.v) THEN x ELSE IF try THEN Null ELSE Err)
+    ELSE IF try THEN Null ELSE Err       \* the pool strings are not numerals
+TArith(t, f, x, y) ==
+  LET r == Arith(f, x, y) IN
+  IF r.k # "i" THEN r
+  ELSE IF ~InKind(t, r.v) THEN Err
+  ELSE IF f \in {"/", "%"} /\ t \in {"i8", "i16"} /\ x.v = KindLo(t) /\ y.v = 0 - 1 THEN Err
+  ELSE r
+TUn(t, f, x) ==
+  IF IsErr(x) THEN Err ELSE IF IsNull(x) THEN Null
+  ELSE LET n == IF f = "neg" THEN 0 - x.v ELSE Abs(x.v) IN IF InKind(t, n) THEN I(n) ELSE Err
+
+RECURSIVE Eval(_, _), EvalCase(_, _, _), EvalCoalesce(_, _), EvalCaseX(_, _, _, _)
 
 EvalCase(whens, els, row) ==
   IF whens = <<>> THEN Eval(els, row)
@@ -76,6 +148,15 @@ EvalCase(whens, els, row) ==
        IF IsErr(c) THEN Err
        ELSE IF IsTrue(c) THEN Eval(Head(whens)[2], row)
        ELSE EvalCase(Tail(whens), els, row)
+
+\* simple CASE: x = operand value (evaluated once); a NULL operand matches no WHEN
+EvalCaseX(x, whens, els, row) ==
+  IF IsErr(x) THEN Err
+  ELSE IF whens = <<>> THEN Eval(els, row)
+  ELSE LET c == Cmp("=", x, Eval(Head(whens)[1], row)) IN
+       IF IsErr(c) THEN Err
+       ELSE IF IsTrue(c) THEN Eval(Head(whens)[2], row)
+       ELSE EvalCaseX(x, Tail(whens), els, row)
 
 EvalCoalesce(args, row) ==
   IF args = <<>> THEN Null
@@ -93,6 +174,11 @@ Eval(e, row) ==
     [] e.op = "case" -> EvalCase(e.whens, e.else, row)
     [] e.op = "coalesce" -> EvalCoalesce(e.args, row)
     [] e.op = "nullif" -> NullIf(Eval(e.l, row), Eval(e.r, row))
+    [] e.op = "like" -> LikeVal(e.f, Eval(e.e, row), Eval(e.pat, row), e.neg)
+    [] e.op = "casex" -> EvalCaseX(Eval(e.e, row), e.whens, e.else, row)
+    [] e.op = "cast" -> CastV(e.to, e.try, Eval(e.e, row))
+    [] e.op = "tbin" -> TArith(e.t, e.f, Eval(e.l, row), Eval(e.r, row))
+    [] e.op = "tun" -> TUn(e.t, e.f, Eval(e.e, row))
 
 \* constructors (used by generators)
 Col(i) == [op |-> "col", i |-> i]
@@ -104,4 +190,10 @@ BetweenE(e, lo, hi, neg) == [op |-> "between", e |-> e, lo |-> lo, hi |-> hi, ne
 CaseE(whens, els) == [op |-> "case", whens |-> whens, else |-> els]
 Coalesce(args) == [op |-> "coalesce", args |-> args]
 NullIfE(l, r) == [op |-> "nullif", l |-> l, r |-> r]
+LitK(v, k) == [op |-> "lit", v |-> v, t |-> k]
+LikeE(f, e, pat, neg) == [op |-> "like", f |-> f, e |-> e, pat |-> pat, neg |-> neg]
+CaseXE(e, whens, els) == [op |-> "casex", e |-> e, whens |-> whens, else |-> els]
+CastE(to, try, e) == [op |-> "cast", to |-> to, try |-> try, e |-> e]
+TBin(t, f, l, r) == [op |-> "tbin", t |-> t, f |-> f, l |-> l, r |-> r]
+TUnE(t, f, e) == [op |-> "tun", t |-> t, f |-> f, e |-> e]
 =============================================================================
